@@ -100,6 +100,9 @@ def _case_h1(rng, tier, n, exhaustive_split=None):
             if pace == "late":
                 client += [["trigger", "go%d" % r_["tag"]], ["settle"]]
     client.append(["eof"])
+    if rng.random() < 0.2:
+        # the server is told which names it answers to - exactly those the client uses
+        config["server_names"] = sorted({r_["authority"].decode() for r_ in reqs})
     return {
         "family": "h1." + version + (".trunc" if truncate else "") + (".pipelined" if pipelined else ""), "backends": ["asyncio", "trio"],
         "config": config, "conn": conn, "apps": {"default": [["recv_until_end"], ["respond", 200, [], b"d"]], "by_tag": by_tag},
